@@ -44,8 +44,10 @@ def subF : Nat → RE → RE → Bool
   | _ + 1, eps, star _ => true
   | _ + 1, cls rs, cls rs' => rangesSub rs rs'
   | n + 1, cls rs, alt a b => subF n (cls rs) a || subF n (cls rs) b
+  | n + 1, cls rs, star x => subF n (cls rs) x
   | n + 1, seq a b, seq a' b' => subF n a a' && subF n b b'
   | n + 1, seq a b, alt x y => subF n (seq a b) x || subF n (seq a b) y
+  | n + 1, seq a b, star x => subF n a (star x) && subF n b (star x)
   | n + 1, alt a b, r' => subF n a r' && subF n b r'
   | n + 1, star a, star a' => subF n a a'
   | n + 1, star a, alt x y => subF n (star a) x || subF n (star a) y
@@ -67,6 +69,21 @@ theorem star_mono {a a' : RE} (h : ∀ {w}, Matches a w → Matches a' w) {w : L
     cases hr
     exact .starCons (h h1) (ih2 rfl)
 
+theorem star_append {x : RE} {u v : List Nat} (hu : Matches (star x) u) (hv : Matches (star x) v) :
+    Matches (star x) (u ++ v) := by
+  generalize hr : star x = r at hu
+  induction hu with
+  | eps => cases hr
+  | cls _ => cases hr
+  | seq _ _ => cases hr
+  | altL _ => cases hr
+  | altR _ => cases hr
+  | starNil => cases hr; simpa using hv
+  | starCons h1 _ _ ih2 =>
+    cases hr
+    rw [List.append_assoc]
+    exact .starCons h1 (ih2 rfl)
+
 theorem subF_sound {n : Nat} {r r' : RE} (h : subF n r r' = true) : ∀ {w}, Matches r w → Matches r' w := by
   fun_induction subF n r r' <;> intro w hm
   case case1 => cases h
@@ -84,25 +101,33 @@ theorem subF_sound {n : Nat} {r r' : RE} (h : subF n r r' = true) : ∀ {w}, Mat
     rcases Bool.or_eq_true _ _ |>.mp h with h | h
     · exact .altL (ih2 h hm)
     · exact .altR (ih1 h hm)
-  case case8 ih2 ih1 =>
+  case case8 ih1 =>
+    have := ih1 h hm
+    have h2 : Matches (star _) (w ++ []) := .starCons this .starNil
+    simpa using h2
+  case case9 ih2 ih1 =>
     obtain ⟨ha, hb⟩ := Bool.and_eq_true _ _ |>.mp h
     obtain ⟨u, v, rfl, hu, hv⟩ := matches_seq.mp hm
     exact .seq (ih2 ha hu) (ih1 hb hv)
-  case case9 ih2 ih1 =>
+  case case10 ih2 ih1 =>
     rcases Bool.or_eq_true _ _ |>.mp h with h | h
     · exact .altL (ih2 h hm)
     · exact .altR (ih1 h hm)
-  case case10 ih2 ih1 =>
+  case case11 ih2 ih1 =>
+    obtain ⟨ha, hb⟩ := Bool.and_eq_true _ _ |>.mp h
+    obtain ⟨u, v, rfl, hu, hv⟩ := matches_seq.mp hm
+    exact star_append (ih2 ha hu) (ih1 hb hv)
+  case case12 ih2 ih1 =>
     obtain ⟨ha, hb⟩ := Bool.and_eq_true _ _ |>.mp h
     rcases matches_alt.mp hm with hm | hm
     · exact ih2 ha hm
     · exact ih1 hb hm
-  case case11 ih1 => exact star_mono (fun hx => ih1 h hx) hm
-  case case12 ih2 ih1 =>
+  case case13 ih1 => exact star_mono (fun hx => ih1 h hx) hm
+  case case14 ih2 ih1 =>
     rcases Bool.or_eq_true _ _ |>.mp h with h | h
     · exact .altL (ih2 h hm)
     · exact .altR (ih1 h hm)
-  case case13 => cases h
+  case case15 => cases h
 
 theorem sub_sound {r r' : RE} (h : sub r r' = true) {w : List Nat} (hm : Matches r w) : Matches r' w :=
   subF_sound h hm
